@@ -192,7 +192,13 @@ def analyse(prog, rep):
                 rep.check(not c["loops"] and c["base"] == "notnone", "R-C14-c", w, "marginal emission happens once, only when base rows exist", "",
                           "marginal emission is %s" % ("inside the entry loop" if c["loops"] else "not restricted to base rows that exist"))
     # ---- exactly once / completeness
-    for rk in REQUIRED:
+    # decided only when the whole walk is in this one function: a walk that hands its callbacks on to helper methods
+    # (a split into `all rows` / `within base rows` walkers, an iterative margin loop) presents its cases elsewhere
+    delegates = [ev for ev in I.events if ev.kind == "call" and ev["method"] not in ("_walk", None) and ev["recv"] == self_t and any(a == funcs for a in ev["args"])]
+    if delegates or unknown:
+        rep.undecided("R-C14-d", where, "every case is presented exactly once", "the walk %s: the six cases are not all visible in this function" %
+                      ("delegates to %s" % sorted({ev["method"] for ev in delegates}) if delegates else "has %d unrecognised presentation(s)" % len(unknown)))
+    for rk in (REQUIRED if not (delegates or unknown) else ()):
         got = seen.get(rk, [])
         cons = "%s (%s coords, %s) when base rows %s, %s dimension" % rk
         if len(got) == 1:
@@ -271,7 +277,26 @@ def analyse(prog, rep):
     rep.check(not getc, "R-C14-e", where, "_walk never asks for the common rows", "", "common_rowids()/get(force) is called")
     # ---- R-C14-f
     ks = [ev for ev in I.events if ev.kind == "call" and ev["name"] == KERNEL]
-    rep.check(len(ks) >= 1 and all(len(e["args"]) == 2 for e in ks), "R-C14-f", where, "intersections use set_intersect_merge_np(base rows, entry rows)", "%d call sites" % len(ks), "")
+    if not ks and (delegates or unknown):
+        rep.undecided("R-C14-f", where, "intersections use set_intersect_merge_np(base rows, entry rows)", "no kernel call in this function; the walk delegates to helpers")
+    elif ks and not all(len(e["args"]) == 2 and not e["kwargs"] for e in ks):
+        # an output buffer: the delivered / passed-down row ids then live in it. One that outlives the call (an attribute of the
+        # cube, a module-level array) is overwritten by the NEXT intersection while the previous result is still the base of
+        # the recursion or in the hands of a callback
+        shared = []
+        for e in ks:
+            extra = list(e["args"][2:]) + [v for k, v in e["kwargs"]]
+            for x in extra:
+                if tm.contains(x, lambda y: (y.op == "attr" and y.args[0] == self_t) or y.op == "global"):
+                    shared.append((e, x))
+        if shared:
+            rep.violated("R-C14-f", "%s@%d" % (where, shared[0][0].line), "every intersection result is an array of its own",
+                         "the kernel writes into %s, a buffer kept on the cube: the result passed down as the base rows of the recursion (or handed to a callback) is overwritten by the next intersection" % tm.show(shared[0][1])[:40],
+                         witness={"inputs": "three dimensions: the second category under a prefix is intersected with a base that the first category's intersection has overwritten"})
+        else:
+            rep.undecided("R-C14-f", where, "intersections use set_intersect_merge_np(base rows, entry rows)", "a kernel call with %s arguments" % sorted({len(e["args"]) for e in ks}))
+    else:
+        rep.check(len(ks) >= 1, "R-C14-f", where, "intersections use set_intersect_merge_np(base rows, entry rows)", "%d call sites" % len(ks), "the walk never intersects: combinations of two or more dimensions are not restricted to their common rows")
     rep.floor("R-C14-a", 6, len(cases))
 
 
